@@ -28,6 +28,13 @@ def strip(fn):
     return fn
 
 
+if names == ['*']:
+    names = []
+    for n in tree.body:
+        if isinstance(n, ast.FunctionDef):
+            names.append(n.name)
+        elif isinstance(n, ast.ClassDef):
+            names += [f"{n.name}.{m.name}" for m in n.body if isinstance(m, ast.FunctionDef)]
 chunks = []
 by_class = {}
 for name in names:
